@@ -50,6 +50,16 @@ def tv(test, var: str, facts: dict):
             and isinstance(test.comparators[0], ast.Constant) and ("const:" + test.left.id) in facts:
         eq = facts["const:" + test.left.id] == test.comparators[0].value
         return eq if isinstance(test.ops[0], ast.Eq) else not eq
+    if isinstance(test, ast.Compare) and len(test.ops) == 1 and isinstance(test.ops[0], (ast.In, ast.NotIn)) and isinstance(test.left, ast.Name) \
+            and ("const:" + test.left.id) in facts and isinstance(test.comparators[0], (ast.List, ast.Tuple, ast.Set)) \
+            and all(isinstance(e, ast.Constant) for e in test.comparators[0].elts):
+        member = facts["const:" + test.left.id] in [e.value for e in test.comparators[0].elts]
+        return member if isinstance(test.ops[0], ast.In) else not member
+    if isinstance(test, ast.Compare) and len(test.ops) == 1 and isinstance(test.ops[0], (ast.In, ast.NotIn)) and isinstance(test.left, ast.Name) \
+            and ("const:" + test.left.id) in facts and isinstance(test.comparators[0], ast.Dict) \
+            and all(isinstance(e, ast.Constant) for e in test.comparators[0].keys):
+        member = facts["const:" + test.left.id] in [e.value for e in test.comparators[0].keys]
+        return member if isinstance(test.ops[0], ast.In) else not member
     if isinstance(test, ast.Compare) and len(test.ops) == 1 and isinstance(test.ops[0], (ast.Is, ast.IsNot)) and isinstance(test.comparators[0], ast.Constant) \
             and test.comparators[0].value is None and ("notnone:" + unparse(test.left)) in facts:
         nn = facts["notnone:" + unparse(test.left)]
